@@ -115,11 +115,28 @@ def _slots() -> list[list[tuple[tuple[str, ...], dict[str, Any]]]]:
         one("request_id_bytes = custom_metadata.get(REQUEST_ID_KEY)"),
         one("request_id = ''"),
         one("if request_id_bytes is not None:\n    request_id = request_id_bytes.decode()"),
-        one(
-            "if level_str == Level.EXCEPTION.value:\n    error_type = str(raw_extra_data.get('exception_type', level_str))\n"
-            "    traceback_str = str(raw_extra_data.get('traceback', ''))\n"
-            "    raise RpcError(error_type, message_str, traceback_str, request_id=request_id)"
-        ),
+        [
+            (
+                (
+                    "if level_str == Level.EXCEPTION.value:\n    error_type = str(raw_extra_data.get('exception_type', level_str))\n"
+                    "    traceback_str = str(raw_extra_data.get('traceback', ''))\n"
+                    "    raise RpcError(error_type, message_str, traceback_str, request_id=request_id)",
+                ),
+                {},
+            ),
+            # since the C07 repair the error additionally carries the top-level vgi_rpc.error_kind value (decoded like the
+            # ids: UTF-8 assumed; not part of C08's outcome -- RaiseRpc is type + message -- and owned by C07)
+            (
+                (
+                    "if level_str == Level.EXCEPTION.value:\n    error_type = str(raw_extra_data.get('exception_type', level_str))\n"
+                    "    traceback_str = str(raw_extra_data.get('traceback', ''))\n"
+                    "    kind_bytes = custom_metadata.get(ERROR_KIND_KEY)\n"
+                    "    error_kind = kind_bytes.decode() if kind_bytes is not None else None\n"
+                    "    raise RpcError(error_type, message_str, traceback_str, request_id=request_id, error_kind=error_kind)",
+                ),
+                {},
+            ),
+        ],
         [
             (("extra: dict[str, str] = {k: str(v) for k, v in raw_extra_data.items()}",), {"guard": False}),
             (
